@@ -50,4 +50,14 @@ def chain {A B} : Fmt A B → List (Fmt A B) → B → Option B
 def inInputOrder {V} (inputs : List String) (results : List (String × V)) : List (String × V) :=
   inputs.filterMap fun n => results.find? (fun r => r.1 == n)
 
+/-- `align.RandomAlignment(alphabet, length, nbseq)` as `goalign random` calls it: `nbseq` rows named `Seq%04d`, every
+residue `chars[rand.Intn(len(chars))]`, row after row, site after site (`RandomSequence`) -/
+def randomAlignment (chars : List Byte) (length : Nat) : Nat → Nat → RProg Rows
+  | 0, _ => .pure []
+  | n + 1, i =>
+    RProg.bind (drawIdx chars.length length) fun idx =>
+      RProg.bind (randomAlignment chars length n (i + 1)) fun rest =>
+        let num := toString i
+        .pure (("Seq" ++ String.ofList (List.replicate (4 - num.length) '0') ++ num, idx.map fun k => chars.getD k 0) :: rest)
+
 end Gv.Model.Cli
